@@ -1,6 +1,8 @@
 import sys
 import warnings
 
+from copy import deepcopy
+
 import numpy as np
 import pandas as pd
 
@@ -53,6 +55,15 @@ class Call:
         if not isinstance(other, type(self)):
             return False
         return self.call == other.call
+
+    def __deepcopy__(self, memo):
+        # The environment refers to the caller's namespaces, which may hold modules and other
+        # objects that cannot (and must not) be copied: a copy of the call shares it.
+        result = self.__class__.__new__(self.__class__)
+        memo[id(self)] = result
+        for key, value in self.__dict__.items():
+            setattr(result, key, value if key == "env" else deepcopy(value, memo))
+        return result
 
     def __repr__(self):
         return self.__str__()
